@@ -188,6 +188,26 @@ Theorem C16_nonsafe_call_needs_permission : forall perms c m,
 Proof. exact nonsafe_call_needs_permission. Qed.
 Print Assumptions C16_nonsafe_call_needs_permission.
 
+(* ---- the executing contract changes itself (update / destroy) and then calls ---- *)
+(* Domovoi on: the gate is CanCall of the manifest the context was loaded with, total: no state of ContractManagement
+   (updated, destroyed) makes a non-safe call pass without it *)
+Theorem C16_gate_never_skipped : forall loaded current c m,
+  call_gate true false true loaded current c m = can_call loaded c m /\
+  (call_gate true false true loaded current c m = true <-> may_call loaded c m).
+Proof. exact gate_never_skipped. Qed.
+Print Assumptions C16_gate_never_skipped.
+
+(* the lookup-gated check (the form in force before Domovoi) does not have the property *)
+Definition C16_lookup_gated_statement : Prop := lookup_gated_statement.
+Theorem C16_lookup_gated_refuted : ~ C16_lookup_gated_statement.
+Proof. exact lookup_gated_refuted. Qed.
+Print Assumptions C16_lookup_gated_refuted.
+
+Theorem C16_gate_before_domovoi : forall loaded ps c m,
+  call_gate false false true loaded (Some ps) c m = can_call ps c m.
+Proof. exact gate_before_domovoi. Qed.
+Print Assumptions C16_gate_before_domovoi.
+
 (* F6: the mechanism before the repair (group case returns at once) does not meet the specification *)
 Definition C16_can_call_unfixed_statement : Prop := can_call_unfixed_statement.
 Theorem C16_can_call_unfixed_refuted : ~ C16_can_call_unfixed_statement.
